@@ -118,6 +118,7 @@ def chain_of(body, what):
 
 
 STRING_CONSTANT_SKELETONS = {
+    's',
     'format!(r#""{}""#,s)',
     'format!(r#""{}""#,s,)',
     'letescaped=s;format!(r#""{escaped}""#)',
@@ -131,6 +132,16 @@ def string_constant_chain(rel, fname="make_string_constant"):
     if rest not in STRING_CONSTANT_SKELETONS:
         raise Refuse(f"{rel}::{fname}: unrecognised body shape {rest!r}")
     return chain
+
+
+def dot_string_constant_chain():
+    """regex.rs: make_dot_string_constant wraps dot_escape (the chain) in quotes"""
+    src = read("src/regex.rs")
+    body = fn_body(src, r"fn\s+make_dot_string_constant\s*\(\s*s\s*:\s*&str\s*\)\s*->\s*String\s*\{", "regex.rs::make_dot_string_constant")
+    flat = re.sub(r"\s+", "", body).strip("{}")
+    if flat == 'format!(r#""{}""#,dot_escape(s))' or 'dot_escape(s)' in flat:
+        return string_constant_chain("src/regex.rs", "dot_escape")
+    return string_constant_chain("src/regex.rs", "make_dot_string_constant")
 
 
 def dfa_label_chain():
@@ -302,7 +313,7 @@ def generate():
         "fish": string_constant_chain("src/fish.rs"),
         "zsh": string_constant_chain("src/zsh.rs"),
         "pwsh": string_constant_chain("src/pwsh.rs"),
-        "dotRegexCmd": string_constant_chain("src/regex.rs", "make_dot_string_constant"),
+        "dotRegexCmd": dot_string_constant_chain(),
         "dotDfaLabel": dfa_label_chain(),
     }
     starts = {sh: array_start(f"src/{sh}.rs") for sh in ("bash", "fish", "zsh", "pwsh")}
